@@ -264,6 +264,10 @@ func init() {
 	h["verifIsConcrete"] = func(e *Exec, c *frame, fn *ssa.Function, a []Value) Value {
 		return e.tt.Bool(e.concreteMode)
 	}
+	// verifStopPath ends the path here (after a violation that would otherwise make the run diverge)
+	h["verifStopPath"] = func(e *Exec, c *frame, fn *ssa.Function, a []Value) Value {
+		panic(pathEnd{"stopped by the harness"})
+	}
 	h["verifFail"] = func(e *Exec, c *frame, fn *ssa.Function, a []Value) Value {
 		e.assertHolds(e.tt.False, strArg(e, a[0]), c)
 		return nil
